@@ -2,7 +2,7 @@
 from . import vise, core
 PID = 'C05'
 MC = ['C05_ScopeLifetime', 'C05_LimitsHold', 'C05_MappedVisible']
-TR = ['C05_Load', 'C05_Scope']
+TR = ['C05_Load', 'C05_Scope', 'C05_ReqNoOrphanScope']
 
 
 def run(tier):
